@@ -165,6 +165,8 @@ func execOp(op string) (out string) {
 		return execMore(args)
 	case "conc":
 		return execConc(args[1:])
+	case "perftbin", "procuci":
+		return execProc(args)
 	case "facts":
 		return "facts=1"
 	case "eval", "evalc", "see", "tt", "order", "time", "go", "gof", "prep":
